@@ -2,35 +2,12 @@
 #ifndef VERIF_GENS_HPP
 #define VERIF_GENS_HPP
 #include "case.hpp"
+#include "gens_cfg.hpp"
 #include <map>
 #include <rapidcheck.h>
 #include <string>
 
 namespace verif {
-
-typedef std::map<std::string, std::string> Cfg;
-
-inline std::string cfgGet(const Cfg &c, const std::string &k, const std::string &d = "") {
-    auto it = c.find(k);
-    return it == c.end() ? d : it->second;
-}
-inline long long cfgInt(const Cfg &c, const std::string &k, long long d = 0) {
-    auto it = c.find(k);
-    return it == c.end() ? d : std::strtoll(it->second.c_str(), nullptr, 10);
-}
-inline std::vector<std::string> splitList(const std::string &s, char sep) {
-    std::vector<std::string> r;
-    size_t i = 0;
-    while (i <= s.size()) {
-        size_t j = s.find(sep, i);
-        if (j == std::string::npos)
-            j = s.size();
-        if (j > i)
-            r.push_back(s.substr(i, j - i));
-        i = j + 1;
-    }
-    return r;
-}
 
 void showValue(const Case &c, std::ostream &os);
 
